@@ -1,5 +1,6 @@
 import Zc.Proofs.SurviveHost
 import Zc.Proofs.SurviveComp
+import Zc.Props.C15Route
 import Zc.Props.C02
 /-! # C15 — a running instance survives any datagram stream
 
